@@ -3,6 +3,7 @@
 #include "sim.hpp"
 #include <algorithm>
 #include <cerrno>
+#include <csignal>
 
 namespace sa {
 
@@ -51,9 +52,10 @@ std::vector<Item> random_options(Rng &r, int mode, int density) {
 	if (maybe(10)) pool.push_back({r.coin(1, 2) ? "-MD" : "-MMD"});
 	if (maybe(8)) pool.push_back({"-MF", "deps.d"});
 	if (maybe(8)) pool.push_back({"-MT", "tgt"});
-	if (maybe(15)) pool.push_back({r.coin(1, 2) ? "-Wp,-undef" : "-Wp,-DQ=1,-C,-traditional-cpp"});
-	if (maybe(15)) pool.push_back({r.coin(1, 2) ? "-Wa,--noexecstack" : "-Wa,-q,--fatal-warnings,-a"});
-	if (maybe(15)) pool.push_back({r.coin(1, 2) ? "-Wl,--gc-sections" : "-Wl,-z,--as-needed,-O1"});
+	if (maybe(15)) pool.push_back({r.coin(1, 2) ? "-Wp,-undef" : r.coin(1, 4) ? "-Wp,-C,,-CC" : "-Wp,-DQ=1,-C,-traditional-cpp"});
+	if (maybe(15)) pool.push_back({r.coin(1, 2) ? "-Wa,--noexecstack" : r.coin(1, 4) ? "-Wa," : "-Wa,-q,--fatal-warnings,-a"});
+	if (maybe(15)) pool.push_back({r.coin(1, 2) ? "-Wl,--gc-sections" : r.coin(1, 4) ? "-Wl,-z,,--as-needed" : "-Wl,-z,--as-needed,-O1"});
+	if (maybe(5)) pool.push_back({"-Wl,--second-list,-x"});
 	if (maybe(20)) pool.push_back(opt_val(r, "-L", paths[r.below(4)]));
 	if (maybe(10)) pool.push_back({"-s"});
 	if (maybe(10)) pool.push_back({"-static"});
@@ -111,11 +113,11 @@ Scenario gen_c17(uint64_t seed) {
 	bool have_dash = false;
 	bool xactive = false;
 	int nentries = 0;
-	static const char *dirs[] = {"", "", "src/", "../x/", "/abs/"};
+	static const char *dirs[] = {"", "", "src/", "../x/", "/abs/", "src.d/", "../v1.2/", "./"};
 	for (int i = 0; i < ninputs; i++) {
 		int ty;
 		do ty = (int)r.below(NTY); while (mode == LINK && ty == TY_H);
-		std::string base = std::string(dirs[r.below(5)]) + "f" + std::to_string(i) + (r.coin(1, 6) ? ".x" : "");
+		std::string base = std::string(dirs[r.below(8)]) + (r.coin(1, 12) ? "." : "") + "f" + std::to_string(i) + (r.coin(1, 6) ? ".x" : "");
 		if (r.coin(1, 8) && TYPES[ty].xlang && !(mode == LINK && ty == TY_H)) {
 			// forced language, arbitrary or missing suffix, or standard input
 			inseq.push_back(opt_val(r, "-x", TYPES[ty].xlang));
@@ -249,7 +251,15 @@ Scenario gen_c18(uint64_t seed, uint64_t index, bool relaxed) {
 	std::vector<int> types;
 	for (int i = 0; i < c.ninputs; i++) {
 		int ty = TY_C;
-		if (i != c.fin || c.fmode == 0) {
+		if (i == c.fin && c.fmode != 0 && r.coin(1, 2)) {
+			// the failing input: any type whose pipeline contains the failing stage and the last stage
+			for (int tries = 0; tries < 20; tries++) {
+				int cand = (int)r.below(NTY);
+				bool has_f = false, has_l = false;
+				for (int s : TYPES[cand].stages) { if (s == c.fstage) has_f = true; if (s == c.last) has_l = true; }
+				if (has_f && has_l && !(c.last == LINK && cand == TY_H)) { ty = cand; break; }
+			}
+		} else if (i != c.fin || c.fmode == 0) {
 			for (int tries = 0; tries < 20; tries++) {
 				ty = (int)r.below(NTY);
 				bool part = false;
@@ -312,6 +322,13 @@ Scenario gen_c18(uint64_t seed, uint64_t index, bool relaxed) {
 			case M_EXIT1_AFTER_HALF: p.param = 1 + r.below(4); break;
 			case M_SIGSEGV: p.param = r.below(8); break;
 			case M_SIGKILL: p.param = r.below(120); break;
+			}
+			// exit codes other than 1 and fatal signals other than SIGSEGV in a third of the runs
+			if (r.coin(1, 3)) {
+				static const int codes[] = {2, 3, 42, 126, 127, 128, 255};
+				static const int sigs[] = {SIGSEGV, SIGABRT | 0x80, SIGBUS | 0x80, SIGILL | 0x80, SIGFPE | 0x80, SIGHUP, SIGINT, SIGTERM, SIGPIPE, SIGXCPU | 0x80};
+				if (fmode == M_SIGSEGV) p.code = sigs[r.below(10)];
+				else if (fmode != M_SIGKILL) p.code = codes[r.below(7)];
 			}
 			sc.plans.push_back(p);
 		} else if (fmode == 7) {
